@@ -10,10 +10,12 @@ import JsonV.Props.C10
 import JsonV.Lemmas.NumJNumber
 import JsonV.Lemmas.GlueFormatNum
 import JsonV.Lemmas.CanonAtom
+import JsonV.Lemmas.NumReformat
+import JsonV.Lemmas.WireNumberScan
 
 namespace JsonV.Props.C10Glue
 open JsonV JsonV.Model.Number JsonV.Spec.Ecma JsonV.Spec.Grammar JsonV.Fmt JsonV.Canon
-open JsonV.Lemmas.NumInt JsonV.Lemmas.NumFloat JsonV.Lemmas.NumJNumber JsonV.Lemmas.CanonAtom
+open JsonV.Lemmas.NumInt JsonV.Lemmas.NumFloat JsonV.Lemmas.NumJNumber JsonV.Lemmas.CanonAtom JsonV.Lemmas.NumReformat
 
 /-! ### (1) what this slice emits is a `JNumber` -/
 
@@ -86,6 +88,119 @@ theorem numStable_of_laws (fp : FloatCodec) (h : CodecLaws fp) :
 /-- The laws are satisfiable (degenerate codec: every literal reads as 0), so the two theorems are not vacuous. -/
 example : CodecLaws ⟨fun _ => ⟨false, false, 0, 0⟩, fun _ => ([], 0)⟩ :=
   ⟨fun _ => (show WFD [] 0 from ⟨by simp, by simp, fun _ => rfl, by omega, by omega⟩), fun _ => rfl⟩
+
+/-! ### jsonwire.ReformatNumber, every flag combination -/
+
+/-- **`reformat_number_spec`**: for every number literal of the grammar and every combination of
+CanonicalizeRawInts (`ci`) / CanonicalizeRawFloats (`cf`): the output is a number of the grammar and one token;
+with both flags off it is the input verbatim; in general it is the input when `verbatimB ci cf lit` (flags off;
+a float literal without `cf`; an integer literal without `ci` or shorter than 16 characters — `-0` excepted) and
+otherwise `AppendFloat` of the literal's float64 value with −0 ↦ 0 and ±Inf ↦ ±MaxFloat64 (`numValue`). -/
+theorem reformat_number_spec (fp : FloatCodec) (hfp : ∀ f, WFD (fp.shortest f).1 (fp.shortest f).2)
+    (ci cf : Bool) (lit : Bytes) (hl : JNumber lit) :
+    JNumber (reformatNumber fp.parse fp.append ci cf lit) ∧
+    (Tok.num (reformatNumber fp.parse fp.append ci cf lit)).valid = true ∧
+    (ci = false → cf = false → reformatNumber fp.parse fp.append ci cf lit = lit) ∧
+    reformatNumber fp.parse fp.append ci cf lit =
+      (if verbatimB ci cf lit then lit else fp.append (numValue fp lit)) := by
+  have h : JNumber (reformatNumber fp.parse fp.append ci cf lit) :=
+    reformat_is_JNumber fp.parse fp.append ci cf lit hl (fun f => float_is_JNumber f.neg _ _ (hfp f))
+  refine ⟨h, ?_, ?_, reformat_cases fp ci cf lit⟩
+  · simp only [Tok.valid, beq_iff_eq]
+    exact (scanNum_iff' _).2 h
+  · intro h1 h2
+    subst h1 h2
+    rw [reformat_cases, verbatimB_off, if_pos rfl]
+
+/-- With both flags on (Canonicalize) and the guarded shortcut law (`ShortIntFixed` of Props/C13.lean, whose body
+is the hypothesis `hs`), every number literal is re-spelled as `AppendFloat` of its value — the `n < 16` shortcut
+is invisible. -/
+theorem reformat_canonical (fp : FloatCodec)
+    (hs : ∀ lit, isIntLit lit = true → shortInt lit = true → fp.append (numValue fp lit) = lit)
+    (lit : Bytes) (hl : JNumber lit) :
+    reformatNumber fp.parse fp.append true true lit = fp.append (numValue fp lit) := by
+  rw [reformat_cases, verbatimB_on]
+  by_cases c : shortInt lit = true
+  · have hi : isIntLit lit = true := by
+      apply (intLit_iff_noFrac lit hl).2
+      simp only [shortInt, Bool.and_eq_true, Bool.not_eq_true'] at c
+      exact c.1.2
+    rw [if_pos c, hs lit hi c]
+  · rw [if_neg c]
+
+/-- ReformatNumber is idempotent under the codec laws, whatever the flags. -/
+theorem reformat_idempotent (fp : FloatCodec) (h : CodecLaws fp) (ci cf : Bool) (lit : Bytes) :
+    reformatNumber fp.parse fp.append ci cf (reformatNumber fp.parse fp.append ci cf lit) =
+      reformatNumber fp.parse fp.append ci cf lit := reformat_idem fp h.reread ci cf lit
+
+/-- … and never changes the float64 value the literal denotes (C12: reformatting preserves the meaning). -/
+theorem reformat_preserves_value (fp : FloatCodec) (h : CodecLaws fp) (ci cf : Bool) (lit : Bytes) :
+    numValue fp (reformatNumber fp.parse fp.append ci cf lit) = numValue fp lit := by
+  rw [reformat_cases]
+  by_cases hv : verbatimB ci cf lit = true
+  · rw [if_pos hv]
+  · rw [if_neg hv, h.reread lit]
+
+-- the flag cases are all inhabited: `1.0` is copied without CanonicalizeRawFloats, `-0` never is
+example : verbatimB true false [49, 46, 48] = true ∧ verbatimB true false [45, 48] = false ∧
+    verbatimB true true [49, 50, 51] = true ∧ verbatimB false true [49, 50, 51] = true := by decide
+
+/-! ### quoted floats (`string` option, StringifyNumbers, map keys) -/
+
+/-- `jsonwire.ConsumeNumber` consumes a number of the grammar entirely (C01's scanner lemmas). -/
+theorem consumeNumber_of_JNumber (b : Bytes) (h : JNumber b) : Model.Wire.consumeNumber b = (b.length, .ok) := by
+  have hg := JsonV.Lemmas.WireNumber.good_consumeNumber b
+  have := JsonV.Lemmas.WireNumber.scan_unique b b.length (Nat.le_refl _)
+    ((JsonV.Lemmas.WireNumber.jnumber_iff_acc _).1 (by rwa [List.take_length])) (Or.inl rfl) _ _ hg
+  exact Prod.ext this.2 this.1
+
+/-- The float unmarshaler treats the quoted form exactly like the bare number when the content is one JSON number,
+and refuses any other content with a syntax error. -/
+theorem quoted_float_same (pf : Bytes → Fl) (val : Bytes) :
+    (JNumber val → unmarshalFloatValue pf true .str val = unmarshalFloatValue pf false .num val) ∧
+    (¬ JNumber val → unmarshalFloatValue pf true .str val = .err .syntax) := by
+  constructor
+  · intro h
+    simp [unmarshalFloatValue, consumeNumber_of_JNumber val h]
+  · intro h
+    have hne : ¬ ((Model.Wire.consumeNumber val).1 = val.length ∧ (Model.Wire.consumeNumber val).2 = .ok) := by
+      intro ⟨h1, h2⟩
+      have hg := JsonV.Lemmas.WireNumber.good_consumeNumber val
+      rw [h2, h1] at hg
+      exact h ((JsonV.Lemmas.WireNumber.jnumber_iff_acc _).2 (by simpa [List.take_length] using hg.2.1))
+    simp only [unmarshalFloatValue, Bool.not_true, Bool.false_eq_true, if_false]
+    rw [if_pos]
+    simp only [Bool.or_eq_true, bne_iff_ne, ne_eq]
+    by_cases h1 : (Model.Wire.consumeNumber val).1 = val.length
+    · right; intro h2; exact hne ⟨h1, h2⟩
+    · left; exact h1
+
+/-- The law of strconv a float round trip needs (validated by harness/c10.go: AppendFloat's text parses back to
+identical bits, for every float32 and a stratified sample of float64): well-formed shortest digits, and the text
+reads back as the value — for the values in `dom`, the normal forms that denote float64/float32 values (`Fl` has
+several representations of one number; the parser returns one of them, so the law can only hold on those). -/
+structure FloatRT (fp : FloatCodec) (dom : Fl → Prop) : Prop where
+  wfd : ∀ f, WFD (fp.shortest f).1 (fp.shortest f).2
+  rt : ∀ f, dom f → fp.parse (fp.append f) = f
+
+/-- **`quoted_float_rt`** (for C04): what the float marshaler writes for a finite value — bare, or quoted under
+`string` / StringifyNumbers / as a map key — the float unmarshaler reads back as that value. -/
+theorem quoted_float_rt (fp : FloatCodec) (dom : Fl → Prop) (h : FloatRT fp dom) (f : Fl) (hd : dom f) (hf : f.inf = false) :
+    unmarshalFloatValue fp.parse false .num (fp.append f) = .set f ∧
+    unmarshalFloatValue fp.parse true .str (fp.append f) = .set f := by
+  have hj : JNumber (fp.append f) := float_is_JNumber f.neg _ _ (h.wfd f)
+  have hb : unmarshalFloatValue fp.parse false .num (fp.append f) = .set f := by
+    simp [unmarshalFloatValue, h.rt f hd, hf]
+  exact ⟨hb, by rw [(quoted_float_same fp.parse _).1 hj, hb]⟩
+
+/-- the law is satisfiable and the theorem not vacuous: the codec whose only value is +0 -/
+example :
+    let fp : FloatCodec := ⟨fun _ => ⟨false, false, 0, 0⟩, fun _ => ([], 0)⟩
+    FloatRT fp (fun f => f = ⟨false, false, 0, 0⟩) ∧
+      unmarshalFloatValue fp.parse true .str (fp.append ⟨false, false, 0, 0⟩) = .set ⟨false, false, 0, 0⟩ := by
+  have h : FloatRT ⟨fun _ => ⟨false, false, 0, 0⟩, fun _ => ([], 0)⟩ (fun f => f = ⟨false, false, 0, 0⟩) :=
+    ⟨fun _ => (show WFD [] 0 from ⟨by simp, by simp, fun _ => rfl, by omega, by omega⟩), fun f hf => hf.symm⟩
+  exact ⟨h, (quoted_float_rt _ _ h _ rfl rfl).2⟩
 
 /-! ### (2) what this slice accepts is a `JNumber` -/
 
